@@ -12,8 +12,13 @@ static void src_priv_dtor(void *data);
 static void *task_thread(void *data);
 static ev_src_t *create_src(m_mod_t *mod, m_src_types type, process_cb proc,
                             const void *src_data, m_src_flags flags, const void *userptr);
+static int fill_src(ev_src_t *src, const void *src_data, m_src_flags flags);
 
-/* Compare functions */
+/*
+ * Compare functions: both arguments are sources.
+ * m_bst_insert() and oneshot sources removal pass the source itself as first argument,
+ * deregister_mod_src() wraps user data in a source.
+ */
 static int fdcmp(void *my_data, void *node_data);
 static int tmrcmp(void *my_data, void *node_data);
 static int sgncmp(void *my_data, void *node_data);
@@ -132,13 +137,25 @@ static ev_src_t *create_src(m_mod_t *mod, m_src_types type, process_cb proc,
     src->mod = mod;
     src->process = proc;
     
+    if (fill_src(src, src_data, flags) != 0) {
+        M_WARN("Wrong src type: %d\n", type);
+        m_mem_unrefp((void **)&src);
+    }
+    return src;
+}
+
+/*
+ * Store in src the user provided data that identifies it (src->type must be already set).
+ * Used both to create a new source, and to build the key to look up a registered one.
+ */
+static int fill_src(ev_src_t *src, const void *src_data, m_src_flags flags) {
     /*
      * Same storage is used for all linux's internal fds, eg: for timerfd, signalfd...
      * as fd_src_t is always first struct field on linux.
      */
     src->fd_src.fd = -1;
     
-    switch (type) {
+    switch (src->type) {
         case M_SRC_TYPE_PS: // M_SRC_TYPE_PS is used for pubsub_fd[0] in init_pubsub_fd()
         case M_SRC_TYPE_FD: {
             fd_src_t *fd_src = &src->fd_src;
@@ -151,7 +168,7 @@ static ev_src_t *create_src(m_mod_t *mod, m_src_types type, process_cb proc,
             }
             
             // enforce HIGH priority for fds
-            if (type == M_SRC_TYPE_FD) {
+            if (src->type == M_SRC_TYPE_FD) {
                 src->flags |= M_SRC_PRIO_HIGH;
             }
             break;
@@ -192,61 +209,59 @@ static ev_src_t *create_src(m_mod_t *mod, m_src_types type, process_cb proc,
             break;
         }
         default:
-            M_WARN("Wrong src type: %d\n", type);
-            m_mem_unrefp((void **)&src);
-            break;
+            return -EINVAL;
     }
-    return src;
+    return 0;
 }
 
 static int fdcmp(void *my_data, void *node_data) {
     ev_src_t *src = (ev_src_t *)node_data;
-    int fd = *((int *)my_data);
+    ev_src_t *my = (ev_src_t *)my_data;
 
-    return fd - src->fd_src.fd;
+    return my->fd_src.fd - src->fd_src.fd;
 }
 
 static int tmrcmp(void *my_data, void *node_data) {
     ev_src_t *src = (ev_src_t *)node_data;
-    const m_src_tmr_t *its = (const m_src_tmr_t *)my_data;
+    ev_src_t *my = (ev_src_t *)my_data;
 
-    return its->ns - src->tmr_src.its.ns;
+    return my->tmr_src.its.ns - src->tmr_src.its.ns;
 }
 
 static int sgncmp(void *my_data, void *node_data) {
     ev_src_t *src = (ev_src_t *)node_data;
-    const m_src_sgn_t *sgs = (const m_src_sgn_t *)my_data;
+    ev_src_t *my = (ev_src_t *)my_data;
 
-    return sgs->signo - src->sgn_src.sgs.signo;
+    return my->sgn_src.sgs.signo - src->sgn_src.sgs.signo;
 }
 
 static int pathcmp(void *my_data, void *node_data) {
     ev_src_t *src = (ev_src_t *)node_data;
-    const m_src_path_t *pt = (const m_src_path_t *)my_data;
+    ev_src_t *my = (ev_src_t *)my_data;
 
-    return strcmp(pt->path, src->path_src.pt.path);
+    return strcmp(my->path_src.pt.path, src->path_src.pt.path);
 }
 
 static int pidcmp(void *my_data, void *node_data) {
     ev_src_t *src = (ev_src_t *)node_data;
-    const m_src_pid_t *pid = (const m_src_pid_t *)my_data;
+    ev_src_t *my = (ev_src_t *)my_data;
 
-    return pid->pid - src->pid_src.pid.pid;
+    return my->pid_src.pid.pid - src->pid_src.pid.pid;
 }
 
 static int taskcmp(void *my_data, void *node_data) {
     ev_src_t *src = (ev_src_t *)node_data;
-    const m_src_task_t *tid = (const m_src_task_t *)my_data;
+    ev_src_t *my = (ev_src_t *)my_data;
 
-    return tid->tid - src->task_src.tid.tid;
+    return my->task_src.tid.tid - src->task_src.tid.tid;
 }
 
 static int threshcmp(void *my_data, void *node_data) {
     ev_src_t *src = (ev_src_t *)node_data;
-    const m_src_thresh_t *thr = (const m_src_thresh_t *)my_data;
+    ev_src_t *my = (ev_src_t *)my_data;
 
-    long double my_val = (long double)thr->activity_freq
-                         + (long double)thr->inactive_ms;
+    long double my_val = (long double)my->thresh_src.thr.activity_freq
+                         + (long double)my->thresh_src.thr.inactive_ms;
     long double their_val = (long double)src->thresh_src.thr.activity_freq
                             + (long double)src->thresh_src.thr.inactive_ms;
     return my_val - their_val;
@@ -394,7 +409,12 @@ int deregister_mod_src(m_mod_t *mod, m_src_types type, void *src_data) {
     M_MOD_ASSERT(mod);
     M_MOD_CONSUME_TOKEN(mod);
 
-    return m_bst_remove(mod->srcs[type], src_data);
+    /* Compare functions work on sources: look up a source holding user data */
+    ev_src_t key;
+    key.type = type;
+    key.flags = 0;
+    fill_src(&key, src_data, 0);
+    return m_bst_remove(mod->srcs[type], &key);
 }
 
 int start_task(m_ctx_t *c, ev_src_t *src) {
